@@ -3,6 +3,7 @@
 package gi
 
 import (
+	"fmt"
 	"strings"
 
 	"github.com/ohler55/slip"
@@ -54,10 +55,12 @@ func (f *StringRepeat) Call(s *slip.Scope, args slip.List, depth int) slip.Objec
 	} else {
 		slip.TypePanic(s, depth, "string", args[0], "string")
 	}
-	if num, ok := args[1].(slip.Fixnum); ok {
-		count = int(num)
-	} else {
-		slip.TypePanic(s, depth, "count", args[1], "fixnum")
+	// A string can not be longer than array-dimension-limit.
+	num, ok := args[1].(slip.Fixnum)
+	if !ok || num < 0 || slip.ArrayMaxDimension < num || slip.ArrayMaxDimension < int(num)*len(str) {
+		slip.TypePanic(s, depth, "count", args[1],
+			fmt.Sprintf("non-negative fixnum such that the result is not longer than %d", slip.ArrayMaxDimension))
 	}
+	count = int(num)
 	return slip.String(strings.Repeat(str, count))
 }
